@@ -437,6 +437,10 @@ def snapshot(obj, passed):
     cfg = getattr(obj, 'config', None)
     if cfg is not None and hasattr(cfg, 'asdict'):
         snap['config'] = canon_config(cfg)
+    # a parser object: its permanent configuration (what the next bare call starts from)
+    perm = getattr(obj, 'self_config', None) if obj is not None else None
+    if perm is not None and hasattr(perm, 'asdict'):
+        snap['self_config'] = canon_config(perm)
     snap['passed'] = [canon_config(c) for c in passed]
     return snap
 
@@ -446,7 +450,7 @@ def state_diff(before, after):
     out = []
     if before.get('model') != after.get('model') or before.get('model_name') != after.get('model_name'):
         out.append(('model', ['asjson']))
-    for key in ('config',):
+    for key in ('config', 'self_config'):
         b, a = before.get(key), after.get(key)
         if b != a:
             fields = sorted(k for k in set(b or {}) | set(a or {}) if (b or {}).get(k) != (a or {}).get(k))
@@ -684,7 +688,32 @@ def _shapes():
         ('compile', {}, None, {'config': {'whitespace': '[ ]+', 'ignorecase': False}}, 'g0'),
         ('compile', {}, None, {'semantics': 'scale2'}, 'g0'),
     ]
+    # calls on ONE reusable object (a generated-parser instance / a compiled model) that pass nothing, or exactly one
+    # thing: the bare call after any of the others must still be the bare call
+    sem = {'typed': 'upper', 'typed2': 'upper', 'plain': 'scale2', 'kw': 'upper', 'lrec': 'scale2', 'ws': 'scale2'}
+    for fam, (rule, rtext) in ONE_ARG_START.items():
+        text = TEXTS[fam][0][0]
+        one = [({}, text), ({'asmodel': True}, text), ({'semantics': sem[fam]}, text), ({'parseinfo': True}, text),
+               ({'config': {'parseinfo': True}}, text)]
+        if fam in ('typed', 'typed2', 'plain'):
+            one += [({'start': rule}, rtext), ({'config': {'semantics': sem[fam]}}, text), ({'config': {}}, text),
+                    ({'nameguard': False}, text), ({'memoization': False}, text)]
+        if fam in ('typed', 'typed2'):
+            one += [({'ignorecase': True}, text), ({'whitespace': 'x'}, text.replace(' ', 'x')),
+                    ({'config': {'start': rule}}, rtext), ({}, rtext), ({}, TEXTS[fam][1][0])]
+        for p, t in one:
+            S[fam].append(('gen', {}, {}, p, t, 'one'))
+            S[fam].append(('compile', {}, None, p, t, 'one'))
     return S
+
+
+ONE_ARG_START = {'typed': ('item', '12'), 'typed2': ('item', '7'), 'plain': ('item', '12'), 'kw': ('ident', 'foo'),
+                 'lrec': ('term', '1'), 'ws': ('num', '5')}
+
+
+def is_bare(desc):
+    """no argument but the text"""
+    return desc['via'] in ('gen', 'compile', 'genmodel') and desc.get('probe', 'parse') == 'parse' and not desc.get('p')
 
 
 def _text(fam, key):
@@ -707,8 +736,10 @@ def pool(tier='quick'):
         out.append(d)
 
     for fam, shapes in _shapes().items():
-        for via, c, k, p, tk in shapes:
+        for via, c, k, p, tk, *tag in shapes:
             d = {'fam': fam, 'via': via, 'c': c}
+            if tag:
+                d['tag'] = tag[0]
             if k is not None:
                 d['k'] = k
             if tk == 'info':
